@@ -1,8 +1,9 @@
-CONSTANTS N = 4
+CONSTANTS N = 3
   Works = {1,2}
-  MaxDepth = 4
+  MaxDepth = 3
   P = 2
   MaxSubs = 1
+  AutoEvery = 0
 SPECIFICATION SpecMark
 INVARIANTS TypeOK TipMaxWork MarkedExcluded
 PROPERTIES RefusalChangesNothing FallsBack SaveLoadSame
